@@ -412,12 +412,12 @@ func isLibPure(q string) bool {
 	return false
 }
 
-func (x *Exec) isLocalVar(id *ast.Ident) bool {
+func (x *Exec) isLocalVar(st *State, id *ast.Ident) bool {
 	obj, ok := x.eng.info.Uses[id].(*types.Var)
 	if !ok {
 		return false
 	}
-	if _, taken := x.addrTaken[obj]; taken {
+	if _, taken := st.addr[obj]; taken {
 		return false
 	}
 	return obj.Parent() != x.eng.pkg.Types.Scope()
@@ -465,7 +465,7 @@ func (x *Exec) callStatic1(st *State, e *ast.CallExpr, callee *types.Func, recvE
 						}
 					}
 				}
-				if id, ok := unparen(recvE).(*ast.Ident); ok && kindOf(cur.T) == kStruct && x.isLocalVar(id) {
+				if id, ok := unparen(recvE).(*ast.Ident); ok && kindOf(cur.T) == kStruct && x.isLocalVar(st, id) {
 					r := x.allocRef(st)
 					x.storeStruct(st, r, cur.T, cur)
 					ct := cur.T
@@ -534,7 +534,7 @@ func (x *Exec) callStatic1(st *State, e *ast.CallExpr, callee *types.Func, recvE
 func (x *Exec) addrOfValue(st *State, e ast.Expr, v *Value) *Value {
 	if id, ok := unparen(e).(*ast.Ident); ok {
 		if obj := x.eng.info.Uses[id]; obj != nil {
-			if ref, ok := x.addrTaken[obj]; ok {
+			if ref, ok := st.addr[obj]; ok {
 				return scalarV(types.NewPointer(v.T), ref)
 			}
 		}
@@ -1080,6 +1080,10 @@ func contains(xs []string, s string) bool {
 }
 
 func (x *Exec) applyEffect(st, pre *State, ef *Effect, pos token.Pos, q string) {
+	if ef.BulkKey != "" {
+		x.applyBulk(st, ef, pos)
+		return
+	}
 	x.spec++
 	x.specPos = pos
 	rhs := x.eval(pre, ef.RHS)
@@ -1120,4 +1124,50 @@ func (x *Exec) applyCallback(st *State, cb *Contract, sig *types.Signature, args
 	x.oldStack = x.oldStack[:len(x.oldStack)-1]
 	st.names = saved
 	return outs
+}
+
+// applyBulk: heap[Struct.field] := lambda r. EXPR(r) (evaluated in the current
+// state), introduced as a fresh array with its pointwise definition.
+func (x *Exec) applyBulk(st *State, ef *Effect, pos token.Pos) {
+	sn, fn, ok := strings.Cut(ef.BulkKey, ".")
+	if !ok {
+		x.fail("bulk: bad key %s", ef.BulkKey)
+		return
+	}
+	stT := x.eng.typeByName(sn)
+	ft := x.fieldType(stT, fn)
+	if ft == nil {
+		x.fail("bulk: no field %s", ef.BulkKey)
+		return
+	}
+	lv := x.leavesOf(ft)
+	if len(lv) != 1 || lv[0].path != "" {
+		x.fail("bulk: field %s is not scalar", ef.BulkKey)
+		return
+	}
+	x.nameCount["$q"]++
+	r := x.b.Var(fmt.Sprintf("q!r!%d", x.nameCount["$q"]), RefSort)
+	saved, had := st.names[ef.BulkVar]
+	st.names[ef.BulkVar] = scalarV(types.NewPointer(stT), r)
+	x.spec++
+	x.specPos = pos
+	mark := len(st.pc)
+	x.noGuard++
+	rhs := x.coerce(st, x.eval(st, ef.RHS), ft)
+	x.noGuard--
+	st.pc = st.pc[:mark]
+	x.spec--
+	if had {
+		st.names[ef.BulkVar] = saved
+	} else {
+		delete(st.names, ef.BulkVar)
+	}
+	if rhs.L == nil {
+		rhs = x.convertConst(rhs, ft)
+	}
+	old := x.heapArr(st, ef.BulkKey, lv[0].sort)
+	na := x.b.Fresh("bulk."+ef.BulkKey, old.Sort)
+	rd := x.b.Select(na, r)
+	x.assume(st, x.b.Forall([]*Term{r}, x.b.Eq(rd, rhs.scalar()), []*Term{rd}))
+	st.heap[ef.BulkKey] = na
 }
